@@ -7,10 +7,10 @@
    forwarder, since these are the only addresses the resolver models pass), and
    the record types resolve_hostname_to_ip asks for are those of the protocol
    mode, preferred family first.
-   Not yet proved (follow-up, by induction over the execution of the recursive
-   model): only_v4 / only_v6 / prefer_* / port_fixed / forward_only_forwarder on
-   the whole exchange log of resolve_recursive / resolve_forwarding.  Until then
-   these are covered by the differential stream and the oracle of vlib/p_c18.py. *)
+   FOLLOW-UP (second half of this file), by induction over the execution of the
+   resolver models: only_v4 / only_v6 / prefer_* / port_fixed /
+   forward_only_forwarder on the whole exchange log of resolve_recursive /
+   resolve_forwarding. *)
 From RV Require Import Base.Prelude Wire.WireTypes Resolver.TransportModel Resolver.RecursiveModel
      Resolver.ResolverFacts.
 
@@ -53,3 +53,126 @@ Theorem C18_rtypes_of_mode : forall m,
   end.
 Proof. exact rtypes_of_mode_spec. Qed.
 Print Assumptions C18_rtypes_of_mode.
+
+(* ====================================================================== *)
+(* FOLLOW-UP: whole-log theorems on the resolver models                     *)
+(* (lemmas: Resolver/RecursiveProofs.v, Resolver/ForwardingProofs.v)        *)
+(* ====================================================================== *)
+From RV Require Import Name.NameModel Zone.ZoneModel Resolver.LocalModel Resolver.ValidateModel
+     Resolver.ForwardingModel Resolver.RecursiveProofs Resolver.ForwardingProofs.
+
+(* port_fixed, for a whole resolution: every exchange the recursive resolver logs goes to the
+   configured upstream port (and is sent without RD) -- every oracle, cache, zone set, mode, fuel *)
+Theorem C18_port_fixed_whole_log :
+  forall (cache : Type) (cache_get : cache -> dname -> N -> list rr) (cache_insert_all : cache -> list rr -> cache)
+         (sort_names : list dname -> list dname) (zs : zones) (o : oracle) (pmode : protocol_mode) (port : N) fuel q st,
+  exists new,
+    ts_rlog (snd (snd (resolve_recursive cache cache_get cache_insert_all sort_names zs o pmode port fuel q st)))
+    = new ++ ts_rlog (snd st)
+    /\ Forall (fun e => snd (x_addr e) = port /\ x_rd e = false) new.
+Proof. exact recursive_port_fixed. Qed.
+Print Assumptions C18_port_fixed_whole_log.
+
+(* forward_only_forwarder: in forwarding mode every exchange goes to the configured forwarder
+   (address and port), with RD set *)
+Theorem C18_forward_only_forwarder :
+  forall (cache : Type) (cache_get : cache -> dname -> N -> list rr) (cache_insert_all : cache -> list rr -> cache)
+         (zs : zones) (o : oracle) (forwarder : addr) fuel q st,
+  exists new,
+    ts_rlog (snd (snd (resolve_forwarding cache cache_get cache_insert_all zs o forwarder fuel q st)))
+    = new ++ ts_rlog (snd st)
+    /\ Forall (fun e => x_addr e = forwarder /\ x_rd e = true) new.
+Proof. exact forwarding_only_forwarder. Qed.
+Print Assumptions C18_forward_only_forwarder.
+
+(* only_v4 / only_v6 ([v4] = true / false): every destination of a resolution has the configured
+   family, never the other one.  What is needed is that record type and RDATA shape agree
+   ([rr_typed]: an A record carries an IPv4 address, an AAAA record an IPv6 address -- in Rust this
+   is the type RecordTypeWithData; in the model a record is a (type code, rdata) pair): of the
+   configured zones, of what the cache holds at the start, and of the cache implementation (the two
+   laws of C08_answer_provenance_recursive; SimpleCache meets them).  Upstream data is typed because
+   it is decoded from octets (C03_decode_wf). *)
+Theorem C18_only_family :
+  forall (cache : Type) (cache_get : cache -> dname -> N -> list rr) (cache_insert_all : cache -> list rr -> cache)
+         (sort_names : list dname -> list dname) (zs : zones) (o : oracle) (pmode : protocol_mode) (port : N)
+         (cache_content : cache -> rr -> Prop),
+  (forall c n t r, In r (cache_get c n t) -> exists r', cache_content c r' /\ rr_sim r r') ->
+  (forall c rrs r, cache_content (cache_insert_all c rrs) r -> cache_content c r \/ exists r', In r' rrs /\ rr_sim r r') ->
+  forall v4 : bool,
+  oracle_bytes_ok o -> zones_rrs_ok zs rr_typed -> pmode = (if v4 then OnlyV4 else OnlyV6) ->
+  forall fuel q st, (forall r, cache_content (fst st) r -> rr_typed r) ->
+  exists new,
+    ts_rlog (snd (snd (resolve_recursive cache cache_get cache_insert_all sort_names zs o pmode port fuel q st)))
+    = new ++ ts_rlog (snd st)
+    /\ Forall (fun e => ip_is_v4 (fst (x_addr e)) = v4) new.
+Proof. exact recursive_only_family. Qed.
+Print Assumptions C18_only_family.
+
+(* prefer_family ([v4] = true: prefer-v4, false: prefer-v6), on the loop of resolve_hostname_to_ip
+   -- a fold over [rtypes_of_mode] in order: when it yields an address of the OTHER family for a
+   nameserver host, the question for the preferred family was asked first (of local data in the
+   fast pass, recursively in the slow pass) and yielded no address; only then was the other family
+   asked.  Same typing hypotheses as above. *)
+Theorem C18_prefer_family :
+  forall (cache : Type) (cache_get : cache -> dname -> N -> list rr) (cache_insert_all : cache -> list rr -> cache)
+         (sort_names : list dname -> list dname) (zs : zones) (o : oracle) (pmode : protocol_mode) (port : N)
+         (cache_content : cache -> rr -> Prop),
+  (forall c n t r, In r (cache_get c n t) -> exists r', cache_content c r' /\ rr_sim r r') ->
+  (forall c rrs r, cache_content (cache_insert_all c rrs) r -> cache_content c r \/ exists r', In r' rrs /\ rr_sim r r') ->
+  oracle_bytes_ok o -> zones_rrs_ok zs rr_typed ->
+  forall (v4 : bool) fuel stack locally host st a st',
+  pmode = (if v4 then PreferV4 else PreferV6) ->
+  (forall r, cache_content (fst st) r -> rr_typed r) ->
+  resolve_hostname_to_ip cache cache_get zs pmode
+    (resolve_recursive_notimeout cache cache_get cache_insert_all sort_names zs o pmode port fuel) stack locally host st
+    = (Val (Some a), st') ->
+  ip_is_v4 a = negb v4 ->
+  exists st1,
+    hostname_try cache cache_get zs
+      (resolve_recursive_notimeout cache cache_get cache_insert_all sort_names zs o pmode port fuel) stack locally host
+      (if v4 then RT_A else RT_AAAA) st = (Val None, st1)
+    /\ hostname_try cache cache_get zs
+      (resolve_recursive_notimeout cache cache_get cache_insert_all sort_names zs o pmode port fuel) stack locally host
+      (if v4 then RT_AAAA else RT_A) st1 = (Val (Some a), st').
+Proof. exact rhi_prefer_family. Qed.
+Print Assumptions C18_prefer_family.
+
+(* the loop itself, without any hypothesis: the second record type is asked only when the first
+   yielded no address *)
+Theorem C18_hostname_loop_order :
+  forall (cache : Type) (cache_get : cache -> dname -> N -> list rr) (zs : zones)
+         (rec : list question -> question -> RM cache rres) stack locally host t1 t2 st a st',
+  hostname_loop cache cache_get zs rec stack locally host [t1; t2] st = (Val (Some a), st') ->
+  hostname_try cache cache_get zs rec stack locally host t1 st = (Val (Some a), st')
+  \/ exists st1, hostname_try cache cache_get zs rec stack locally host t1 st = (Val None, st1)
+                 /\ hostname_try cache cache_get zs rec stack locally host t2 st1 = (Val (Some a), st').
+Proof. exact hloop_two. Qed.
+Print Assumptions C18_hostname_loop_order.
+
+(* the address taken from a set of typed records has the family of the record type asked for *)
+Theorem C18_get_ip_family : forall rrs host t a,
+  Forall rr_typed rrs -> get_ip rrs host t = Ok (Some a) ->
+  (t = RT_A -> ip_is_v4 a = true) /\ (t = RT_AAAA -> ip_is_v4 a = false).
+Proof. exact get_ip_family. Qed.
+Print Assumptions C18_get_ip_family.
+
+(* the hypotheses are satisfiable: the records of a zone set built with Zone::insert are typed when
+   the inserted records are -- here the root hints of C07's worked universe, checked record by
+   record; SimpleCache meets the cache laws (C08_simple_cache_laws) and the empty cache holds
+   nothing *)
+Example C18_example_typed :
+  rr_typed {| rr_name := root_domain; rr_type := RT_A; rr_class := RC_IN; rr_ttl := 1; rr_data := RD_A 167772161 |}
+  /\ rr_typed {| rr_name := root_domain; rr_type := RT_AAAA; rr_class := RC_IN; rr_ttl := 1; rr_data := RD_AAAA [0;0;0;0;0;0;0;1] |}
+  /\ ~ rr_typed {| rr_name := root_domain; rr_type := RT_A; rr_class := RC_IN; rr_ttl := 1; rr_data := RD_AAAA [0;0;0;0;0;0;0;1] |}
+  /\ (forall r, sc_content sc_empty r -> rr_typed r)
+  /\ zones_rrs_ok [] rr_typed.
+Proof.
+  split; [reflexivity|]. split; [reflexivity|]. split; [vm_compute; discriminate|].
+  split; [intros r H; destruct (sc_empty_content r H)|].
+  assert (E : forall n qt, zones_resolve [] n qt = None).
+  { intros n qt. unfold zones_resolve, zones_get.
+    assert (E : forall sufs, zones_get_loop (@nil (dname * zone)) sufs = None).
+    { induction sufs as [|ls rest IH]; [reflexivity|]. cbn [zones_get_loop alookup]. destruct (from_labels ls); exact IH. }
+    rewrite E. reflexivity. }
+  split; intros name qt z zr r H; rewrite E in H; discriminate.
+Qed.
